@@ -32,7 +32,7 @@ Proof.
   intros P c x c' H. unfold step_start_ctx in H.
   destruct (p_kind P x) eqn:Ek; try discriminate.
   destruct (cancelled c x); try discriminate.
-  destruct (spc c x); inv_some; unfold start_reject, release_gate; frame.
+  destruct (p_relfix P); destruct (spc c x); inv_some; unfold start_reject, start_reject_if, release_gate; frame.
 Qed.
 
 Lemma frame_ack : forall P c x c', step_ack c x = Some c' -> aq_frame P c c'.
